@@ -9,8 +9,8 @@ from harness import common as C
 from harness import leanio
 
 PROPERTY = "C12"
-LEAN_TARGETS = ["VectorModel.Props.C12"]
-THEOREM_FILES = ["VectorModel/Props/C12.lean"]
+LEAN_TARGETS = ["VectorModel.Props.C12", "VectorModel.Props.MethodOps"]
+THEOREM_FILES = ["VectorModel/Props/C12.lean", "VectorModel/Props/MethodOps.lean"]
 NOT_COVERED = ["NaN operands (outside the real-number model; property excludes them)",
                "numpy/awkward element semantics of ==, & and | (trusted contract, sampled by the correspondence)"]
 GROUP = {2: "planar", 3: "spatial", 4: "lorentz"}
